@@ -72,7 +72,7 @@ def build(variant="plain", quiet=True):
         srcs = [os.path.join(pkg, m + ".c")] + [os.path.join(pkg, c) for c in EXTRA_C.get(m, [])]
         target = os.path.join(pkg, m + suffix)
         if variant == "asan":
-            cmd = ["clang", "-O1", "-g", "-fno-omit-frame-pointer", "-fsanitize=address", "-shared-libasan",
+            cmd = ["clang", "-O1", "-g", "-fno-omit-frame-pointer", "-fsanitize=address", "-fsanitize-recover=address", "-shared-libasan",
                    "-fPIC", "-shared", "-w", "-I", inc, "-I", pkg, *srcs, "-lz", "-o", target]
         else:
             cmd = ["gcc", "-O2", "-fPIC", "-shared", "-w", "-I", inc, "-I", pkg, *srcs, "-lz", "-o", target]
